@@ -26,11 +26,19 @@ func (s *scn) applyExtra(st CStep) {
 
 func (s *scn) afterBlockExtra(h uint64, txs []*pb.BxhTransaction, metas []*txMeta, ref *blockResult) {
 	// remember proposal ids returned by any governance operation (argument pool, vote targets)
-	for _, rc := range ref.Receipts {
+	for i, rc := range ref.Receipts {
 		if rc.Status == pb.Receipt_SUCCESS && len(rc.Ret) > 15 && rc.Ret[0] == '{' {
 			g := &governance.GovernanceResult{}
 			if json.Unmarshal(rc.Ret, g) == nil && g.ProposalID != "" {
 				s.proposals = append(s.proposals, g.ProposalID)
+				if i < len(metas) && metas[i].sender != nil {
+					if s.auditSponsor == nil {
+						s.auditSponsor = map[string]*Key{}
+					}
+					if _, known := s.auditSponsor[g.ProposalID]; !known {
+						s.auditSponsor[g.ProposalID] = metas[i].sender // the account that may withdraw it
+					}
+				}
 			}
 		}
 	}
